@@ -4,6 +4,7 @@ import (
 	"fmt"
 	"go/token"
 	"go/types"
+	"os"
 	"reflect"
 	"regexp"
 	"sort"
@@ -51,6 +52,7 @@ func runC19(p *core.Prog, r *core.Result) {
 	r.Decided = []string{
 		"R19.6 the loader assigns no decoded field of Config, and of a requirement only its path (CleanPath): name, version and ignore list are returned as written",
 		"R19.7 path cleaning on load keeps every version suffix except the ones compared equal to a constant (\"\", v0, v1): JoinPathVersion returns the bare path only on edges where the major version was tested equal to a string constant, and otherwise a string built from the path, \"@\" and the major version in that order - an ordering or validity test (semver.Compare, IsValid) in that place drops an open-ended family of suffixes, so an already clean path such as tools/gen@edge loads back as tools/gen and get/tidy rewrite it",
+		"R19.8 rewriting an existing file leaves nothing of the old contents behind: the writer opens its destination with os.Create, or with os.OpenFile whose constant flags include O_TRUNC (or writes a fresh temporary that is renamed over it) - without truncation a shorter configuration (tidy dropping requirements) keeps the tail of the old file, which is often still valid TOML: the dropped requirements come back",
 		"R19.5 loading a configuration touches no package-level state: every load decodes the bytes afresh, so no two loaded configurations share maps or slices through a cache",
 		"R19.4 every format string of the writer is a constant: configuration data is only ever an operand, never the format",
 		"R19.1 the hand-written writer emits every toml-tagged field of Config and RequirementConfig, under the key given by the field's tag",
@@ -275,6 +277,9 @@ func runC19(p *core.Prog, r *core.Result) {
 			r.OK("R19.6", "internal/project.LoadConfigBytes#decoded-fields-untouched", p.Pos(lb.Pos()), "no decoded field is assigned by the loader")
 		}
 	}
+
+	// ---- R19.8 the writer starts from an empty file
+	checkWriterTruncates(p, r, w, "R19.8")
 
 	// ---- R19.7 a version suffix is dropped only for the listed major versions
 	checkJoinPathVersion(p, r, "R19.7")
@@ -790,4 +795,31 @@ func variadicOperands(c *ssa.Call) []ssa.Value {
 		out = append(out, byIdx[i])
 	}
 	return out
+}
+
+// checkWriterTruncates implements R19.8.
+func checkWriterTruncates(p *core.Prog, r *core.Result, w *ssa.Function, rule string) {
+	n := 0
+	for f := range staticClosure(p, w) {
+		if f.Pkg != w.Pkg {
+			continue
+		}
+		for _, c := range core.Calls(f) {
+			cal := core.Callee(c)
+			if cal == nil {
+				continue
+			}
+			construct := fmt.Sprintf("%s#opens-destination-%d", fname(w), n+1)
+			switch core.CalleeKey(cal) {
+			case "os.Create", "os.WriteFile", "os.CreateTemp":
+				n++
+				r.OK(rule, construct, p.InstrPos(c.(ssa.Instruction)), "the destination is opened with %s: it starts empty", core.CalleeKey(cal))
+			case "os.OpenFile":
+				n++
+				flags, ok := core.ConstInt(c.Common().Args[1])
+				r.Check(ok && flags&int64(os.O_TRUNC) != 0 && flags&int64(os.O_APPEND) == 0, rule, construct, p.InstrPos(c.(ssa.Instruction)), "the destination is opened with O_TRUNC", "the destination is opened without O_TRUNC (or with O_APPEND): an existing, longer file keeps its old tail - after tidy has dropped requirements, the rewritten dawn.toml still lists them")
+			}
+		}
+	}
+	r.Floor(rule, n, 1, "calls that open the writer's destination")
 }
